@@ -296,19 +296,21 @@ def build_line(c):
 class C02(Prop):
     id = 'C02'
     lean_modules = ['RSocketModel.Props.C02', 'RSocketModel.Props.C02Builders']
-    technique = 'Lean 4 proof (per-constructor round-trip over a front-consuming decoder mirroring unpack_from/slice semantics) + differential correspondence on both backends'
+    technique = 'Lean 4 proof (per-constructor round-trip over a front-consuming decoder mirroring unpack_from/slice semantics; frame builders regenerated from the source AST by a translator and proved equal to the model) + differential correspondence on both backends'
     level_text = ('c02_decode_encode (decode(encode f) = canon f for every legal value of all 14 types), c02_reencode, c02_partial_write, '
                   'c02_length_prefix_exact, c02_metadata_push_nonzero_ignored are kernel-checked; c02_constants ties the model literals to the regenerated '
                   'flag masks, type ids, class table and error codes. The model is a transcription of each class\'s serialize_frame_prefix/parse and is run '
                   'against serialize(), serialize_with_frame_size_header, the writes of TransportTCP.send_frame and parse_or_ignore, on valid and malformed '
-                  'input, with cbitstruct present and blocked.')
+                  'input, with cbitstruct present and blocked. rsocket/frame_builders.py is *translated* (AST -> Gen/Builders.lean, every run): c02_builders_match_source (the hand-written rule build is the meaning of the regenerated '
+                  'definitions over the regenerated __init__ defaults), c02_builder_payload_intact (what the application hands to any builder - each payload part None, empty or bytes - is what the peer decodes, on the stream named, '
+                  'never flagged IGNORE/FOLLOWS), c02_payload_builder_flags / _next_on_content / _size, c02_builder_defaults, c02_setup_builder_millis; builder calls are also run against the real functions.')
     level_note = ('Trusted: Lean kernel + standard axioms; struct/cbitstruct semantics as transcribed (failing read vs clipping slice); out-of-domain regions '
                   '(signed MIME length >= 128, RESUME longer than its fields, reserved stream-id bit) are only robustness-checked; KEEPALIVE/ERROR/... carry no metadata section.')
     design_ref = '§5 C02'
     rule = ('frame values of all 14 types from the repo\'s own classes over boundary values of every field (0,1,2,max,max-1,2^(k-1),random) and all flag '
             'combinations; malformed stream = truncations, bit flips, type rewrites, ignore flag, appended bytes, metadata flag forced, random bytes; batches of both are '
             'plus frame objects with a history (decoded off the wire, already written once incrementally or one-shot, or merged by FrameFragmentCache from decoded fragments) that now hold another value of the same type: their encodings must be those of the value they hold; plus frames whose metadata length sits at the byte boundaries of the 24-bit length field (255..131077 bytes); re-run in a sub-process with cbitstruct blocked; non-trivial = a valid frame with content or a malformed blob on which the decoder gets past the header; '
-            'distinct = distinct bytes')
+            'distinct = distinct bytes; plus calls of every function of rsocket/frame_builders.py (payload parts None / empty / bytes / bytearray, optional arguments given or defaulted, SETUP times on and off whole milliseconds) compared with the model and judged by an independent decode of what was built')
     assumptions = ['frames are built through the repo\'s classes with token_length = len(token)']
 
     def cases(self, rng, tier):
